@@ -100,7 +100,7 @@ CLAIMED = {
          "over sampled initial attitudes, biases, inclinations, with/without initialisation (thresholds 0.05 rad, bias error <= max(0.02, half the "
          "initial error)) and reports a failing history if one exists.",
          "DESIGN.md §2 C12", TECH_T + "; closed-loop part: falsification sweep over real launch_sim histories (support, not proof)"),
- "C09": ("translation_validation", "Per-program translation validation closed by a Lean theorem: every shipped equation set (estimator and simulator through both "
+ "C09": ("proof", "Per-program translation validation closed by a Lean theorem: every shipped equation set (estimator and simulator through both "
          "generators, rdd2, rdd2_loglinear, bezier, mr_ref_traj) is generated by the REAL generator under the default options and every single "
          "option flip (thorough: all pairs + 40 seeded combinations); the emitted C is parsed into the translator's IR, the casadi.Function is "
          "walked into the same IR, and Lean proves  c = sx  by rfl for every function and every distinct body — an equality of programs over ANY "
